@@ -3,7 +3,7 @@ import PanqecVerif.Model.Lattices.Color488Code
 open Panqec
 
 /-! `lat Color488Code <Lx> <Ly> qubits|stabs|stab <coord>|logx|logz|axis <coord>|
-    type <coord>|deform <name> <coord>|hmat|lxmat|lzmat|n|k` -/
+    type <coord>|deform <name> <coord>|hmat|lxmat|lzmat|rankfamily|n|k` -/
 namespace Drv
 
 def color488CodeModel (Lx Ly : Nat) : ColorModel where
@@ -12,6 +12,7 @@ def color488CodeModel (Lx Ly : Nat) : ColorModel where
   stabilizerType := Color488Code.stabilizerType Lx Ly
   qubitAxis := Color488Code.qubitAxis
   getDeformation := Color488Code.getDeformation
+  rankFamily := fun _ => some (Color488Code.sel Lx Ly)
 
 def handleLatColor488Code : List String → Option String
   | "lat" :: "Color488Code" :: lx :: ly :: rest =>
